@@ -536,6 +536,15 @@ class CargoProbe:
             except (OSError, subprocess.SubprocessError) as e:
                 self._ok = False
                 self.why = repr(e)
+            if self._ok:
+                # canary: the probe mechanism itself must work here (offline resolution of a path dependency)
+                try:
+                    canary = self.req_cells([('1', '1.0.0'), ('2', '1.0.0')])
+                except (RefError, OSError, subprocess.SubprocessError) as e:
+                    canary = [repr(e)[:300]]
+                if canary != [True, False]:
+                    self._ok = False
+                    self.why = f'cargo present but the offline path-dependency probe does not work here: {canary}'
         return self._ok
 
     def _dir(self) -> str:
